@@ -95,7 +95,12 @@ def compare(which, spec):
 def structural(spec):
     """SPLOT only: the declared tree equals the model's tree (any size)."""
     try:
-        text = export("splot", spec)
+        try:
+            text = export("splot", spec)
+        except Exception:  # noqa: BLE001 - failures of the constraint conversion are judged (and attributed) by compare()
+            if not spec.get("ctcs"):
+                raise
+            text = export("splot", {"root": spec["root"], "ctcs": []})
         got, clauses = sxfm.structure(text)
     except sxfm.SxfmError as e:
         return ("export-parseable", "unparseable", str(e)[:200])
